@@ -77,8 +77,37 @@ def coq_project():
     if write_if_changed(os.path.join(COQ, "_CoqProject"), text) or not os.path.exists(os.path.join(COQ, "Makefile")):
         sh("coq_makefile -f _CoqProject -o Makefile", cwd=COQ, check=True)
 
+class SharedLock(Lock):
+    def __enter__(self):
+        self.f = open(self.path, "w")
+        fcntl.flock(self.f, fcntl.LOCK_SH)
+        return self
+
+def _proof_only(targets):
+    return all(t.startswith(("Lemmas_", "Props_")) for t in targets)
+
 def build_coq(targets, timeout=2400):
-    """make the given theories/*.vo targets (full .vo build). Returns (ok, log)."""
+    """make the given theories/*.vo targets (full .vo build). Returns (ok, log).
+    Proof files (Lemmas_*/Props_*) of different properties build concurrently (shared lock + one lock per target) as long
+    as no model file needs rebuilding; anything else takes the exclusive lock."""
+    os.makedirs(BUILD, exist_ok=True)
+    if _proof_only(targets):
+        with SharedLock("coq"):
+            with Lock("coqproject"):
+                coq_project()
+            rc, dry = sh(["make", "-n"] + ["theories/%s.vo" % x for x in targets], cwd=COQ, timeout=600)
+            stale = [l for l in dry.splitlines() if "COQC" in l or "coqc" in l]
+            stale_model = [l for l in stale if not re.search(r"theories/(Lemmas_|Props_)\w+\.v", l)]
+            if not stale_model:
+                locks = [Lock("coq-" + t) for t in sorted(targets)]
+                for l in locks: l.__enter__()
+                try:
+                    t = time.time()
+                    rc, out = sh(["make", "-j8"] + ["theories/%s.vo" % x for x in targets], cwd=COQ, timeout=timeout)
+                    log("[build] coq make (shared) %s rc=%d %.1fs" % (" ".join(targets), rc, time.time() - t))
+                    return rc == 0, out
+                finally:
+                    for l in reversed(locks): l.__exit__()
     with Lock("coq"):
         coq_project()
         t = time.time()
@@ -132,12 +161,13 @@ def proof_obligations(pid):
     res["obligations"] = len(thms)
     for t in thms:
         if t not in printed: res["errors"].append("no Print Assumptions for " + t)
-    with Lock("coq"):
-        coq_project()
-        for ext in (".vo", ".vok", ".vos", ".glob"):
-            try: os.remove(os.path.join(COQ, "theories", props + ext))
-            except FileNotFoundError: pass
-        rc, out = sh(["make", "-j16", "theories/%s.vo" % props], cwd=COQ, timeout=2400)
+    with Lock("coq-" + props + "-po"):
+        with SharedLock("coq"):
+            for ext in (".vo", ".vok", ".vos", ".glob"):
+                try: os.remove(os.path.join(COQ, "theories", props + ext))
+                except FileNotFoundError: pass
+        ok, out = build_coq([props])
+        rc = 0 if ok else 1
     res["log"] = out[-6000:]
     if rc != 0:
         m = re.search(r'File "([^"]+)", line (\d+)[^\n]*\n(Error:.*?)(?:\n\n|\Z)', out, re.S)
